@@ -36,6 +36,10 @@ type swk struct {
 	early     chan struct{}
 	rel       sync.Once
 	runs      atomic.Int32 // invocations of the handler (must be 1)
+	// runWaiting: a consistent snapshot taken after this worker was accepted showed the goroutine that
+	// called Run() still blocked inside Run: Run's final look at
+	// the daemon state therefore happens after the acceptance
+	runWaiting bool
 	// call record (written by the caller goroutine, read after join)
 	callTick, callRet   uint64
 	err                 error
